@@ -74,9 +74,12 @@ func (d *decisionRegion) collect() {
 				}
 				d.atomIndex(a)
 			}
-			if ret, ok := in.(*ssa.Return); ok && len(ret.Results) == 1 {
+			for _, res := range returnResults(in) {
 				// a helper returning a comparison: its atom belongs to the region
-				for _, leaf := range phiLeaves(ret.Results[0]) {
+				if res.Type().String() != "bool" {
+					continue
+				}
+				for _, leaf := range phiLeaves(res) {
 					if _, isC := leaf.(*ssa.Const); isC {
 						continue
 					}
@@ -104,17 +107,31 @@ func stripNot(v ssa.Value) ssa.Value {
 	}
 }
 
-// boolHelper: cond (through negations) is the result of a private helper returning one bool.
+// boolHelper: cond (through negations) is a boolean result of a private helper.
 func boolHelper(cond ssa.Value) *ssa.Function {
-	call, ok := stripNot(cond).(*ssa.Call)
-	if !ok {
-		return nil
+	h, _ := boolHelperIdx(cond)
+	return h
+}
+
+func boolHelperIdx(cond ssa.Value) (*ssa.Function, int) {
+	v := stripNot(cond)
+	idx := 0
+	var call *ssa.Call
+	switch x := v.(type) {
+	case *ssa.Call:
+		call = x
+	case *ssa.Extract:
+		call, _ = x.Tuple.(*ssa.Call)
+		idx = x.Index
+	}
+	if call == nil {
+		return nil, 0
 	}
 	h := helperCallee(call)
-	if h == nil || h.Signature.Results().Len() != 1 || h.Signature.Results().At(0).Type().String() != "bool" {
-		return nil
+	if h == nil || idx >= h.Signature.Results().Len() || h.Signature.Results().At(idx).Type().String() != "bool" {
+		return nil, 0
 	}
-	return h
+	return h, idx
 }
 
 // condValue evaluates a branch condition under an assignment of the atoms; phis are resolved with the
@@ -137,8 +154,8 @@ func (d *decisionRegion) condValue(cond ssa.Value, assign []bool, phiVal map[*ss
 	if c, ok := cond.(*ssa.Const); ok && c.Value != nil {
 		return (c.Value.String() == "true") != neg, true
 	}
-	if h := boolHelper(cond); h != nil && depth < 4 {
-		v, ok := d.evalHelper(h, assign, depth+1)
+	if h, idx := boolHelperIdx(cond); h != nil && depth < 4 {
+		v, ok := d.evalHelper(h, idx, assign, depth+1)
 		return v != neg, ok
 	}
 	a, pol, ok := atomOf(cond, true, d.sym)
@@ -165,7 +182,7 @@ func (d *decisionRegion) condValue(cond ssa.Value, assign []bool, phiVal map[*ss
 }
 
 // evalHelper walks a boolean helper under the assignment and returns its result.
-func (d *decisionRegion) evalHelper(h *ssa.Function, assign []bool, depth int) (bool, bool) {
+func (d *decisionRegion) evalHelper(h *ssa.Function, idx int, assign []bool, depth int) (bool, bool) {
 	phiVal := map[*ssa.Phi]ssa.Value{}
 	b := h.Blocks[0]
 	var prev *ssa.BasicBlock
@@ -183,10 +200,10 @@ func (d *decisionRegion) evalHelper(h *ssa.Function, assign []bool, depth int) (
 		for _, in := range b.Instrs {
 			switch x := in.(type) {
 			case *ssa.Return:
-				if len(x.Results) != 1 {
+				if idx >= len(x.Results) {
 					return false, false
 				}
-				return d.condValue(x.Results[0], assign, phiVal, depth)
+				return d.condValue(x.Results[idx], assign, phiVal, depth)
 			case *ssa.If:
 				v, ok := d.condValue(x.Cond, assign, phiVal, depth)
 				if !ok {
@@ -339,4 +356,11 @@ func (d *decisionRegion) has(a atom) bool {
 		}
 	}
 	return false
+}
+
+func returnResults(in ssa.Instruction) []ssa.Value {
+	if ret, ok := in.(*ssa.Return); ok {
+		return ret.Results
+	}
+	return nil
 }
